@@ -213,8 +213,9 @@ func Decrypt(in io.Reader, opts DecryptOptions) (io.Reader, error) {
 
 	// Unwrap the file key
 	// Note: we're skipping the nonce and tag parameters at the moment because none of the supported ciphers use them
-	fileKeyBytes, _ := opts.UnwrapKeyFn(manifestObj.WFK, string(manifestObj.KeyWrappingAlgorithm), keyName, nil, nil)
-	unwrapFailed := len(fileKeyBytes) != 32
+	fileKeyBytes, unwrapErr := opts.UnwrapKeyFn(manifestObj.WFK, string(manifestObj.KeyWrappingAlgorithm), keyName, nil, nil)
+	// An error is a failure whatever was returned with it: the bytes of a failed unwrap (a still-zeroed output buffer, say) are not a key
+	unwrapFailed := unwrapErr != nil || len(fileKeyBytes) != 32
 	if unwrapFailed {
 		// This is where things get a bit tricky.
 		// If the UnwrapKeyFn returned an error, we want to ignore that for now, and instead continue validating the MAC using an empty fileKey (which will fail).
